@@ -15,8 +15,10 @@
     C03_1, C03_2; [feed_replays_refuted_alias], [feed_replays_refuted_atomic]
     are stated under the switches of CacheModel.v, now off). *)
 From Gnmi Require Import Base.Prelude CTree.CTreeModel CTree.CTreeProofs Path.PathModel
+  Value.ValueModel Value.ValueProofs
   Cache.CacheModel Cache.CacheProofs Cache.C02Check Cache.C03Check.
 Local Open Scope Z_scope.
+Local Open Scope list_scope.
 
 (** * Lookup in the replayed map *)
 
@@ -69,50 +71,97 @@ Proof.
   now destruct (String.eqb tgt (feed_target n) && qmatch p q).
 Qed.
 
-(** * value.Equal on the modelled scalars is a partial equivalence *)
+(** * value.Equal (ValueModel.equal) is a partial equivalence: symmetric
+      (ValueProofs.equal_sym) and transitive, for every arm of the oneof and
+      arbitrary nesting of leaf-lists *)
+
+Section EqualTrans.
+Local Transparent f64_eq f32_eq.
+
+Lemma f64_eq_trans a b c : f64_eq a b = true -> f64_eq b c = true -> f64_eq a c = true.
+Proof.
+  unfold f64_eq. destruct (f64_is_nan a), (f64_is_nan b), (f64_is_nan c); cbn; try discriminate.
+  destruct (f64_is_zero a) eqn:Za, (f64_is_zero b) eqn:Zb, (f64_is_zero c) eqn:Zc; cbn; auto;
+    intros H1 H2; apply N.eqb_eq in H1 || idtac; apply N.eqb_eq in H2 || idtac; subst; try congruence;
+    try (apply N.eqb_eq; congruence).
+Qed.
+
+Lemma f32_eq_trans a b c : f32_eq a b = true -> f32_eq b c = true -> f32_eq a c = true.
+Proof.
+  unfold f32_eq. destruct (f32_is_nan a), (f32_is_nan b), (f32_is_nan c); cbn; try discriminate.
+  destruct (f32_is_zero a) eqn:Za, (f32_is_zero b) eqn:Zb, (f32_is_zero c) eqn:Zc; cbn; auto;
+    intros H1 H2; apply N.eqb_eq in H1 || idtac; apply N.eqb_eq in H2 || idtac; subst; try congruence;
+    try (apply N.eqb_eq; congruence).
+Qed.
+Local Opaque f64_eq f32_eq.
+Local Arguments Z.eqb : simpl never.
+Local Arguments N.eqb : simpl never.
+
+Lemma equal_elems_trans (eq : tv -> tv -> outcome bool) ae : forall be ce,
+  Forall (fun x => forall y z, eq x y = Ok true -> eq y z = Ok true -> eq x z = Ok true) ae ->
+  List.length ae = List.length be -> List.length be = List.length ce ->
+  equal_elems eq ae be = Ok true -> equal_elems eq be ce = Ok true -> equal_elems eq ae ce = Ok true.
+Proof.
+  induction ae as [|x ae IH]; intros [|y be] [|z ce] Hall L1 L2; cbn in *; try discriminate; auto.
+  inversion Hall as [|? ? Hx Hall']; subst.
+  destruct (eq x y) as [[|]| |] eqn:E1; try discriminate.
+  destruct (eq y z) as [[|]| |] eqn:E2; try discriminate.
+  intros H1 H2. rewrite (Hx y z E1 E2). apply (IH be ce); auto.
+Qed.
+
+Ltac eqs :=
+  repeat match goal with
+  | H : Ok ?x = Ok true |- _ => assert (x = true) by (now inversion H); clear H
+  | H : andb _ _ = true |- _ => apply andb_true_iff in H as [? ?]
+  | H : String.eqb _ _ = true |- _ => apply String.eqb_eq in H
+  | H : Z.eqb _ _ = true |- _ => apply Z.eqb_eq in H
+  | H : N.eqb _ _ = true |- _ => apply N.eqb_eq in H
+  | H : Bool.eqb _ _ = true |- _ => apply Bool.eqb_prop in H
+  | H : Nat.eqb _ _ = true |- _ => apply Nat.eqb_eq in H
+  end; subst.
+
+Lemma equal_false_trans a : forall b c,
+  equal_gen false a b = Ok true -> equal_gen false b c = Ok true -> equal_gen false a c = Ok true.
+Proof.
+  induction a as [a Hnl|ae IH] using tv_ind'; intros b c.
+  - destruct a; try (exfalso; eapply Hnl; reflexivity); destruct b; cbn; try discriminate;
+      destruct c; cbn; try discriminate; intros H1 H2; eqs;
+      rewrite ?String.eqb_refl, ?Z.eqb_refl, ?N.eqb_refl, ?Bool.eqb_reflx; cbn; try reflexivity;
+      try (f_equal; eauto using f64_eq_trans, f32_eq_trans; fail).
+    all: try (destruct l; cbn in *; try discriminate; try reflexivity).
+    all: try (destruct l0; cbn in *; try discriminate; try reflexivity).
+  - cbn. destruct b; cbn; try discriminate.
+    + destruct (Nat.eqb (List.length ae) (List.length l)) eqn:E1; cbn; try discriminate.
+      apply Nat.eqb_eq in E1. intros H1.
+      destruct c; cbn; try discriminate.
+      * destruct (Nat.eqb (List.length l) (List.length l0)) eqn:E2; cbn; try discriminate.
+        apply Nat.eqb_eq in E2. intros H2.
+        assert (E3 : Nat.eqb (List.length ae) (List.length l0) = true) by (apply Nat.eqb_eq; congruence).
+        rewrite E3. cbn. apply (equal_elems_trans _ ae l l0); auto.
+      * destruct l; cbn; try discriminate. intros _. destruct ae; cbn in *; [reflexivity|discriminate].
+    + destruct ae; cbn; try discriminate. intros _.
+      destruct c; cbn; try discriminate; auto.
+      destruct l; cbn; [reflexivity|discriminate].
+Qed.
+
+End EqualTrans.
 
 Lemma value_equal_sym a b : value_equal a b = value_equal b a.
-Proof.
-  destruct a as [[]|], b as [[]|]; cbn; try reflexivity;
-    try apply String.eqb_sym; try apply Z.eqb_sym.
-  destruct b0, b; reflexivity.
-Qed.
+Proof. destruct a as [x|], b as [y|]; cbn; try reflexivity. now rewrite (equal_sym x y). Qed.
 
 Lemma value_equal_trans a b c :
   value_equal a b = true -> value_equal b c = true -> value_equal a c = true.
 Proof.
-  destruct a as [[]|], b as [[]|]; cbn; try discriminate; destruct c as [[]|]; cbn; try discriminate;
-    rewrite ?String.eqb_eq, ?Z.eqb_eq; try congruence.
-  destruct b0, b, b1; cbn; congruence.
+  destruct a as [x|], b as [y|], c as [z|]; cbn; try discriminate.
+  unfold equal. change (equal_gen defect_C19_1) with (equal_gen false).
+  destruct (equal_gen false x y) as [[|]| |] eqn:E1; try discriminate.
+  destruct (equal_gen false y z) as [[|]| |] eqn:E2; try discriminate.
+  now rewrite (equal_false_trans x y z E1 E2).
 Qed.
 
 Lemma notif_eqb_refl_ts a b : notif_eqb a b = true -> n_ts a = n_ts b.
 Proof.
   unfold notif_eqb. rewrite !andb_true_iff. intros ((((H & _) & _) & _) & _). now apply Z.eqb_eq.
-Qed.
-
-(** * Facts about notif_eqb (proto.Equal) used below *)
-
-Lemma tv_eqb_eq a b : tv_eqb a b = true -> a = b.
-Proof.
-  destruct a, b; cbn; try discriminate; rewrite ?String.eqb_eq, ?Z.eqb_eq; try congruence.
-  - destruct b0, b; cbn; congruence.
-Qed.
-
-Lemma otv_eqb_eq a b : otv_eqb a b = true -> a = b.
-Proof. destruct a, b; cbn; try discriminate; [intros H; f_equal; now apply tv_eqb_eq|reflexivity]. Qed.
-
-Lemma notif_eqb_atomic a b : notif_eqb a b = true -> n_atomic a = n_atomic b.
-Proof.
-  unfold notif_eqb. rewrite !andb_true_iff. intros (_ & H). now apply Bool.eqb_prop.
-Qed.
-
-Lemma notif_eqb_first_val a b : notif_eqb a b = true -> first_val a = first_val b.
-Proof.
-  unfold notif_eqb. rewrite !andb_true_iff. intros ((((_ & _) & H) & _) & _). unfold first_val.
-  destruct (n_upd a) as [|ua la], (n_upd b) as [|ub lb]; cbn in H; try discriminate; [reflexivity|].
-  apply andb_true_iff in H as [H _]. unfold update_eqb in H. rewrite !andb_true_iff in H.
-  destruct H as ((_ & H) & _). now apply otv_eqb_eq.
 Qed.
 
 (** * qmatch on concrete (glob-free) paths *)
@@ -256,28 +305,44 @@ Definition rel (ed : bool) (o1 o2 : option notif) : Prop :=
   | _, _ => False
   end.
 
+(** what the proofs maintain: the replayed notification IS the stored one, or
+    both are non-atomic, event-driven emulation is on, the values are
+    [value.Equal] and the replayed one is not newer *)
+Definition srel (ed : bool) (o1 o2 : option notif) : Prop :=
+  match o1, o2 with
+  | None, None => True
+  | Some r, Some c =>
+      r = c \/
+      (ed = true /\ n_atomic r = false /\ n_atomic c = false /\
+       value_equal (first_val r) (first_val c) = true /\ n_ts r <= n_ts c)
+  | _, _ => False
+  end.
+
+Lemma srel_rel ed o1 o2 :
+  (forall c, o2 = Some c -> notif_eqb c c = true) -> srel ed o1 o2 -> rel ed o1 o2.
+Proof.
+  intros Hrf. destruct o1 as [r|], o2 as [c|]; cbn; auto.
+  intros [->|(-> & H1 & H2 & H3 & H4)]; unfold approx.
+  - rewrite (Hrf c eq_refl). reflexivity.
+  - rewrite H1, H2, H3. apply Z.leb_le in H4. rewrite H4. cbn. now rewrite orb_true_r.
+Qed.
+
 (** the invariant: the tree is well formed, holds only admitted units at
     their own index paths, and the replayed map stands for it *)
 Definition Inv (t : target) (m : rmap) : Prop :=
   wf_tree (t_tree t) /\
   (forall s v, lookup (t_tree t) s = Some v -> good_unit v /\ stored_index v = Ok s) /\
-  (forall s, rel (cfg_event_driven (t_cfg t)) (rfind m name s) (lookup (t_tree t) s)).
+  (forall s, srel (cfg_event_driven (t_cfg t)) (rfind m name s) (lookup (t_tree t) s)).
 
-Lemma approx_refl ed v : notif_eqb v v = true -> approx ed v v = true.
-Proof. intros H. unfold approx. now rewrite H. Qed.
-
-Lemma approx_suppressed ed r old n :
-  approx ed r old = true ->
+Lemma srel_suppressed ed r old n :
+  srel ed (Some r) (Some old) ->
   ed = true -> n_atomic old = false -> n_atomic n = false ->
   value_equal (first_val old) (first_val n) = true -> n_ts old <= n_ts n ->
-  approx ed r n = true.
+  srel ed (Some r) (Some n).
 Proof.
-  intros Ha -> Hao Han Hve Hts. unfold approx in *. apply orb_true_iff in Ha as [Ha|Ha].
-  - apply orb_true_iff. right.
-    rewrite (notif_eqb_atomic _ _ Ha), (notif_eqb_first_val _ _ Ha), (notif_eqb_refl_ts _ _ Ha), Hao, Han, Hve.
-    cbn. now apply Z.leb_le.
-  - apply orb_true_iff. right. rewrite !andb_true_iff in Ha. destruct Ha as ((((_ & Hr) & _) & Hv) & Hl).
-    rewrite Hr, Han, (value_equal_trans _ _ _ Hv Hve). cbn. apply Z.leb_le. apply Z.leb_le in Hl. lia.
+  intros Ha Hed Hao Han Hve Hts. cbn in *. right. destruct Ha as [->|(_ & H1 & _ & H3 & H4)].
+  - repeat split; auto.
+  - repeat split; auto; [exact (value_equal_trans _ _ _ H3 Hve)|lia].
 Qed.
 
 (** ** one update unit *)
@@ -310,7 +375,7 @@ Proof.
     rewrite (feed_apply_update m n u us p name s Hu Hsi), Htg, String.eqb_refl. cbn [andb].
     rewrite Hl. rewrite (path_eqb_sym s p) at 1.
     destruct (path_eqb_spec p s) as [->|Hps].
-    + cbn. now apply approx_refl.
+    + cbn. now left.
     + destruct (n_atomic n) eqn:Hat.
       * destruct (is_prefix p s) eqn:Hpre.
         -- (* strictly below an atomic leaf: nothing is stored there *)
@@ -327,10 +392,10 @@ Proof.
   - destruct Ho as (old & Hold & Han & Hve & Hed & Hdef & Hts).
     split; [exact Hw'|]. split; [exact Hst'|]. intros s. rewrite Hc, Hl.
     destruct (path_eqb_spec s p) as [->|]; [|apply Hrel].
-    specialize (Hrel p). rewrite Hold in Hrel. unfold rel in *.
+    specialize (Hrel p). rewrite Hold in Hrel.
     destruct (rfind m name p) as [r0|]; [|contradiction].
     destruct Hdef as [Hd|Hd]; [discriminate Hd|].
-    apply (approx_suppressed _ r0 old n Hrel Hed); auto.
+    apply (srel_suppressed _ r0 old n Hrel Hed); auto.
 Qed.
 
 (** ** one delete unit *)
@@ -693,8 +758,9 @@ Proof.
   intros Hg Hnp.
   assert (H0 : Inv name (new_target name cfg) []).
   { split; [exact I|]. split; [intros s v Hv; discriminate|intros s; exact I]. }
-  destruct (history_inv name H _ _ H0 Hg Hnp) as (_ & _ & Hrel).
-  intros s. specialize (Hrel s). rewrite trun_cfg in Hrel. exact Hrel.
+  destruct (history_inv name H _ _ H0 Hg Hnp) as (_ & Hst & Hrel).
+  intros s. specialize (Hrel s). rewrite trun_cfg in Hrel. apply srel_rel; [|exact Hrel].
+  intros c Hc. destruct (Hst s c Hc) as ((_ & Hrf & _) & _). exact Hrf.
 Qed.
 
 (** * withheld only if rejected, or unchanged under event-driven emulation *)
@@ -1019,18 +1085,16 @@ End Target2.
 (** ** the cache's own notifications *)
 
 Lemma good_meta_noti name now k v :
-  name <> "" -> is_glob k = false -> k <> "" ->
+  name <> "" -> is_glob k = false -> k <> "" -> tv_eqb v v = true ->
   good_unit name (meta_noti name now k v) /\ stored_index (meta_noti name now k v) = Ok [md_root; k].
 Proof.
-  intros Hn Hk Hk'.
+  intros Hn Hk Hk' Htv.
   assert (Hidx : stored_index (meta_noti name now k v) = Ok [md_root; k]).
   { unfold stored_index, meta_noti. cbn [n_upd n_atomic n_prefix u_path gp_of_opt].
     unfold join_prefix_and_path, to_strings, gp_of_names. cbn [gp_target gp_origin gp_elems gp_element map flat_map].
     unfold nonempty. destruct (String.eqb_spec name ""); [contradiction|]. reflexivity. }
   split; [|exact Hidx]. split; [reflexivity|]. split.
-  { assert (Htv : tv_eqb v v = true).
-    { destruct v; cbn -[String.eqb Z.eqb]; rewrite ?String.eqb_refl, ?Z.eqb_refl; try reflexivity. now destruct b. }
-    unfold notif_eqb, meta_noti, update_eqb, ogpath_eqb, gpath_eqb, gp_of_names, otv_eqb.
+  { unfold notif_eqb, meta_noti, update_eqb, ogpath_eqb, gpath_eqb, gp_of_names, otv_eqb.
     cbn -[String.eqb Z.eqb tv_eqb]. rewrite !Z.eqb_refl, !String.eqb_refl, Htv.
     unfold pelem_eqb, keymap_eqb. cbn -[String.eqb]. rewrite !String.eqb_refl. reflexivity. }
   split.
@@ -1054,17 +1118,17 @@ Definition GInv (m0 : rmap) (st : target * list notif * option N) : Prop :=
   Forall (ft name) (snd (fst st)) /\ t_name (fst (fst st)) = name.
 
 Lemma gen_meta_one_inv m0 now k v same st :
-  is_glob k = false -> k <> "" ->
+  is_glob k = false -> k <> "" -> (forall val, v = Some val -> tv_eqb val val = true) ->
   GInv m0 st -> GInv m0 (gen_meta_one now k v same st).
 Proof.
-  intros Hk Hk' Hinv. destruct st as [[t feed] [w|]]; [exact Hinv|].
+  intros Hk Hk' Hv Hinv. destruct st as [[t feed] [w|]]; [exact Hinv|].
   unfold gen_meta_one. destruct (name_in k (cfg_excluded (t_cfg t))); [exact Hinv|].
   destruct v as [val|]; [|exact Hinv].
   destruct (meta_differs t k same) as [[|]|e|w]; try exact Hinv.
   2:{ intros H; discriminate H. }
   destruct (Hinv eq_refl) as (Hi & Hf & Hn). cbn [fst snd] in *.
   destruct (gnmi_update1 t now (meta_noti (t_name t) now k val)) as [t' r] eqn:E.
-  rewrite Hn in E. destruct (good_meta_noti name now k val name_ne Hk Hk') as (Hg & _).
+  rewrite Hn in E. destruct (good_meta_noti name now k val name_ne Hk Hk' (Hv val eq_refl)) as (Hg & _).
   pose proof (update_unit_inv name _ _ _ _ _ _ Hi Hg E) as H.
   assert (Hn' : t_name t' = name).
   { destruct (gnmi_update1_spec _ _ _ _ _ (proj1 Hi) E) as (_ & (_ & _ & Hnm) & _). congruence. }
@@ -1080,12 +1144,13 @@ Lemma gen_meta_fold_inv m0 now (names : list string)
   (mk : target * list notif * option N -> string -> option tv)
   (same : target * list notif * option N -> string -> tv -> option bool) :
   forallb (fun k => negb (is_glob k) && negb (String.eqb k "")) names = true ->
+  (forall st k val, mk st k = Some val -> tv_eqb val val = true) ->
   forall st, GInv m0 st ->
   GInv m0 (fold_left (fun st k => gen_meta_one now k (mk st k) (same st k) st) names st).
 Proof.
-  induction names as [|k names IH]; intros Hall st Hinv; [exact Hinv|]. cbn [fold_left].
+  induction names as [|k names IH]; intros Hall Hmk st Hinv; [exact Hinv|]. cbn [fold_left].
   cbn [forallb] in Hall. apply andb_true_iff in Hall as [Hk Hall]. apply andb_true_iff in Hk as [Hk1 Hk2].
-  apply IH; [exact Hall|]. apply gen_meta_one_inv; auto.
+  apply IH; [exact Hall|exact Hmk|]. apply gen_meta_one_inv; auto; [| |apply Hmk].
   - now apply negb_true_iff in Hk1.
   - apply negb_true_iff in Hk2. now apply String.eqb_neq in Hk2.
 Qed.
@@ -1099,17 +1164,20 @@ Proof.
            (fun st k => option_map TStr (md_get_str (t_meta (fst (fst st))) k))
            (fun st k v => match v with
                           | TStr s => option_map (String.eqb s) (md_get_str (t_meta (fst (fst st))) k)
-                          | _ => None end)); [reflexivity|].
+                          | _ => None end)); [reflexivity| |].
+  { intros st k val. destruct (md_get_str _ k); cbn; intros E; inversion E. cbn. apply String.eqb_refl. }
   apply (gen_meta_fold_inv m0 now md_int_names
            (fun st k => option_map TInt (md_get_int (t_meta (fst (fst st))) k))
            (fun st k v => match v with
                           | TInt z => option_map (Z.eqb z) (md_get_int (t_meta (fst (fst st))) k)
-                          | _ => None end)); [reflexivity|].
+                          | _ => None end)); [reflexivity| |].
+  { intros st k val. destruct (md_get_int _ k); cbn; intros E; inversion E. cbn. apply Z.eqb_refl. }
   apply (gen_meta_fold_inv m0 now md_bool_names
            (fun st k => option_map TBool (md_get_bool (t_meta (fst (fst st))) k))
            (fun st k v => match v with
                           | TBool b => option_map (Bool.eqb b) (md_get_bool (t_meta (fst (fst st))) k)
-                          | _ => None end)); [reflexivity|].
+                          | _ => None end)); [reflexivity| |].
+  { intros st k val. destruct (md_get_bool _ k) as [[|]|]; cbn; intros E; inversion E; reflexivity. }
   intros _. cbn [fst snd fold_left]. split; [exact Hi|]. split; [constructor|exact Hn].
 Qed.
 
@@ -1252,10 +1320,10 @@ Lemma ft_other name l y : Forall (ft name) l -> y <> name -> Forall (fun x => fe
 Proof. intros H Hy. eapply Forall_impl; [|exact H]. unfold ft. intros x ->. congruence. Qed.
 
 Lemma good_meta_unit name now k v :
-  name <> "" -> is_glob k = false -> k <> "" -> good_notif name (meta_noti name now k v).
+  name <> "" -> is_glob k = false -> k <> "" -> tv_eqb v v = true -> good_notif name (meta_noti name now k v).
 Proof.
-  intros Hn Hk Hk' m Hm. unfold units, meta_noti in Hm. cbn in Hm. destruct Hm as [Hm|[]].
-  inversion Hm; subst. exact (proj1 (good_meta_noti name now k v Hn Hk Hk')).
+  intros Hn Hk Hk' Htv m Hm. unfold units, meta_noti in Hm. cbn in Hm. destruct Hm as [Hm|[]].
+  inversion Hm; subst. exact (proj1 (good_meta_noti name now k v Hn Hk Hk' Htv)).
 Qed.
 
 (** Target.GnmiUpdate keeps the name of the target *)
@@ -1400,14 +1468,14 @@ Proof.
     destruct (proj1 (proj2 Hc) tgt t Ha) as (Hne & _ & _).
     apply (on_target_inv c m tgt t now (meta_noti tgt now md_sync (TBool true)) t' gs g Hc Ha);
       [|exact E1|intros w ->; apply Hnp; reflexivity].
-    apply good_meta_unit; [exact Hne|reflexivity|discriminate].
+    apply good_meta_unit; [exact Hne|reflexivity|discriminate|cbn; rewrite ?String.eqb_refl; reflexivity].
   - (* Connect: two calls *)
     unfold cache_connect, cache_on_target. destruct (assoc tgt (c_targets c)) as [t|] eqn:Ha.
     2:{ intros E _; inversion E; subst. exact Hc. }
     destruct (target_gnmi_update t now (meta_noti tgt now md_connected (TBool true))) as [[t1 f1] r1] eqn:E1.
     destruct (proj1 (proj2 Hc) tgt t Ha) as (Hne & _ & _).
     assert (Hg1 : good_notif tgt (meta_noti tgt now md_connected (TBool true)))
-      by (apply good_meta_unit; [exact Hne|reflexivity|discriminate]).
+      by (apply good_meta_unit; [exact Hne|reflexivity|discriminate|reflexivity]).
     destruct r1 as [|e|es|w].
     4:{ intros E Hnp; inversion E; subst. exfalso. apply Hnp. reflexivity. }
     all: destruct (target_gnmi_update t1 now (delete_noti tgt "" now [md_root; md_connect_error])) as [[t2 f2] r2] eqn:E2;
@@ -1434,7 +1502,7 @@ Proof.
     destruct (proj1 (proj2 Hc) tgt t Ha) as (Hne & _ & _).
     apply (on_target_inv c m tgt t now (meta_noti tgt now md_connect_error (TStr msg)) t' gs g Hc Ha);
       [|exact E1|intros w ->; apply Hnp; reflexivity].
-    apply good_meta_unit; [exact Hne|reflexivity|discriminate].
+    apply good_meta_unit; [exact Hne|reflexivity|discriminate|cbn; rewrite ?String.eqb_refl; reflexivity].
   - (* UpdateMetadata: every target in turn *)
     unfold cache_update_metadata.
     assert (Hfold : forall (l : list (string * target)) (st : cache * list notif * option N),
@@ -1535,7 +1603,8 @@ Proof.
   intros Hnd Hne Hg name.
   destruct (cache_history_inv ops _ _ (new_cache_inv cfg names Hnd Hne) Hg) as (_ & Hs & Hn).
   destruct (assoc name (c_targets (crun (new_cache cfg names) ops))) as [t|] eqn:Ha.
-  - destruct (Hs name t Ha) as (_ & _ & (_ & _ & Hrel)). exact Hrel.
+  - destruct (Hs name t Ha) as (_ & _ & (_ & Hst & Hrel)). intros s. apply srel_rel; [|apply Hrel].
+    intros c Hc. destruct (Hst s c Hc) as ((_ & Hrf & _) & _). exact Hrf.
   - exact (Hn name Ha).
 Qed.
 
